@@ -298,8 +298,11 @@ def main(module):
         sys.exit(0)
     if hasattr(module, "selftest"):
         module.selftest()
-    sh = module.shards(a.tier, seed)
-    if a.only:
-        sh = [s for s in sh if a.only in str(s.get("kind", ""))]
-    acc = pmap(module, sh, a.jobs)
+    if hasattr(module, "explore"):
+        acc = module.explore(a.tier, seed, a.jobs)
+    else:
+        sh = module.shards(a.tier, seed)
+        if a.only:
+            sh = [s for s in sh if a.only in str(s.get("kind", ""))]
+        acc = pmap(module, sh, a.jobs)
     finish(module, acc, a.tier, seed, t0, bounds=getattr(module, "bounds", lambda t, s: {})(a.tier, seed))
